@@ -18,9 +18,9 @@ import (
 func init() {
 	Register(&Check{
 		Spec: core.Spec{ID: "C06", Level: "fault_enumeration",
-			Rule:        "case = one sequential ingest history (good, empty and unmarshalable batches, limit-triggered and explicit flushes; DataStore = in-memory with/without Abort and with real or deferred deletion, or FileSystemDataStore; MetaStore = MemoryMetaStore behind the fault wrapper). The history is first run fault-free to record its n flush-path store calls (CreateFile, Write, Close, Update; Abort/TombstoneFile appear in failing runs), then re-run once per position i with call i failing before its effect, once more for Close with the effect applied and an error returned, then once per cleanup call (Abort/TombstoneFile) of each failing run, plus PRNG pairs. After every Flush and at the end the answers are compared with what match-all queries on this engine and on a fresh engine see. evaluations = runs; non-trivial = run in which a fault was reached; distinct = distinct (history, fault positions); exhaustive over single positions of each explored history",
+			Rule:        "case = one sequential ingest history (good, empty and unmarshalable batches, limit-triggered and explicit flushes; DataStore = in-memory with/without Abort and with real or deferred deletion, or FileSystemDataStore; MetaStore = MemoryMetaStore behind the fault wrapper). The history is first run fault-free to record its n flush-path store calls (CreateFile, Write, Close, Update; Abort/TombstoneFile appear in failing runs), then re-run once per position i with call i failing before its effect (two thirds of the failing Updates return an error wrapping context.DeadlineExceeded / context.Canceled although the engine's context is live, as a store with its own timeout does), once more for Close with the effect applied and an error returned, then once per cleanup call (Abort/TombstoneFile) of each failing run, plus PRNG pairs. After every Flush and at the end the answers are compared with what match-all queries on this engine and on a fresh engine see. evaluations = runs; non-trivial = run in which a fault was reached; distinct = distinct (history, fault positions); exhaustive over single positions of each explored history",
 			Assumptions: []string{"MetaStore.Update is atomic: an injected Update failure applies nothing", "single sequential client, so the store-call sequence of a history is deterministic (MaxBufferedTime = 1h: no time trigger)"},
-			Floors:      map[string]int64{"histories": 6, "runs_with_fault_reached": 150, "acks_nil_checked": 300, "acks_error_checked": 100}},
+			Floors:      map[string]int64{"histories": 6, "runs_with_fault_reached": 150, "acks_nil_checked": 300, "acks_error_checked": 100, "update_faults_wrapping_context_error": 10}},
 		Cases: func(t string) int { return nQueries(t, 16, 320) },
 		Run:   runC06,
 	})
@@ -83,7 +83,21 @@ func c06Execute(rc *RunCtx, i int, seedRand *core.Rand, steps []c06Step, storeKi
 		for _, f := range faults {
 			if f.Pos == p {
 				run.reached = append(run.reached, f)
-				return stores.Action{Fail: true, PostEffect: f.Post && c.Kind != "Update" && c.Kind != "CreateFile"}
+				act := stores.Action{Fail: true, PostEffect: f.Post && c.Kind != "Update" && c.Kind != "CreateFile"}
+				if c.Kind == "Update" {
+					// two thirds of the failing Updates report the failure the way a remote
+					// metastore with its own timeout does: an error wrapping a context error,
+					// while the context the engine passed is still live (nothing was applied)
+					switch (p + i) % 3 {
+					case 1:
+						act.Err = fmt.Errorf("%w: Update#%d: metastore request timed out: %w", stores.ErrInjected, p, context.DeadlineExceeded)
+						rc.Res.Count("update_faults_wrapping_context_error", 1)
+					case 2:
+						act.Err = fmt.Errorf("%w: Update#%d: metastore request abandoned: %w", stores.ErrInjected, p, context.Canceled)
+						rc.Res.Count("update_faults_wrapping_context_error", 1)
+					}
+				}
+				return act
 			}
 		}
 		return stores.Action{}
